@@ -37,3 +37,9 @@ _p("C12", "proof",
    "(F.6.6), centre parametrisation (F.6.5), flag semantics, segment count, control-point construction and exact end point are proved as "
    "polynomial obligations over axiomatised sin/cos/atan2/sqrt; the 0.03% bound is a pure lemma about the construction.",
    [MATH, CPY])
+
+_p("C13", "proof",
+   "Relative to the assumed Region-algebra contract of skia-pathops: skia_path, _do_pathop, union/intersection/difference, svg_commands and "
+   "remove_overlaps are executed symbolically from /repo's source for 1-4 operands x every rule assignment x the three operations, and shown to "
+   "fold the operands left to right, each under its own rule, simplify with fix_winding, return the engine's output and propagate engine failures.",
+   [PATHOPS, BRIDGE, CPY])
